@@ -20,7 +20,7 @@ import (
 type constTable struct {
 	isMap bool
 	vals  map[string]*big.Int // key (decimal) -> value
-	n     int64 // array length (arrays)
+	n     int64               // array length (arrays)
 	lo    *big.Int
 	hi    *big.Int
 }
